@@ -31,14 +31,14 @@ FILES = ["jaxley/solver_gate.py"] + kin.CHANNEL_FILES + kin.SYNAPSE_FILES + ["ja
 
 
 def check(repo, col, tier):
-    col.rule("R-C03-api", "third-party call binds against the runtime signature", 25)
+    col.rule("R-C03-api", "third-party call binds against the runtime signature", 300)
     col.rule("R-C03-convex", "update == x*E + x_inf*(1-E), E = exp(-dt*k)", 10)
     col.rule("R-C03-sign", "k > 0, 0 < x_inf < 1 over positive atoms", 20)
     col.rule("R-C03-helper", "rate helper == c*exprel(u) on its main region", 2)
     col.rule("R-C03-singular", "removable 0/0 singularities are guarded and filled continuously", 2)
 
     # ---- API-1
-    files = None if tier == "thorough" else FILES
+    files = None  # whole package: a call that cannot bind breaks whichever property runs through it
     n_api = {"ok": 0, "nosig": 0, "dynamic": 0, "unresolved": 0, "mismatch": 0}
     for rel, q, call, dotted, verdict, msg in api.check_calls(repo, files):
         n_api[verdict] += 1
@@ -278,15 +278,19 @@ def _check_updates(repo, col, cinfo, kind, helpers):
         col.unk("R-C03-sign", fi, "update_states", f"outside the analysable fragment (sign mode): {e}", node=fi.node)
         return
     for key in sorted(upd):
-        try:
-            new = rat_of(upd[key])
-            k, xinf, E = kin.decompose_update(ev, new, f"S[{key}]")
-            col.ok("R-C03-convex", fi, f"update of {key}",
-                   "new = x*E + x_inf*(1-E) with E = exp(-dt*k): closed-form solution of the linear gate ODE",
-                   node=fi.node, sides={"k": repr(k)[:300], "x_inf": repr(xinf)[:300]})
-        except Und as e:
-            col.bad("R-C03-convex", fi, f"update of {key}",
-                    f"the update of `{key}` is not of the form x*exp(-dt*k) + x_inf*(1-exp(-dt*k)): {e}", node=fi.node)
+        bad = False
+        for conds, new in as_pw(upd[key]).pieces:
+            reg = kin.region_name(ev, conds)
+            try:
+                k, xinf, E = kin.decompose_update(ev, new, f"S[{key}]")
+                col.ok("R-C03-convex", fi, f"update of {key} [{reg}]",
+                       "new = x*E + x_inf*(1-E) with E = exp(-dt*k): closed-form solution of the linear gate ODE",
+                       node=fi.node, sides={"k": repr(k)[:300], "x_inf": repr(xinf)[:300]})
+            except Und as e:
+                bad = True
+                col.bad("R-C03-convex", fi, f"update of {key} [{reg}]",
+                        f"the update of `{key}` is not of the form x*exp(-dt*k) + x_inf*(1-exp(-dt*k)): {e}", node=fi.node)
+        if bad:
             continue
         try:
             news = rat_of(upd_s[key])
